@@ -253,8 +253,8 @@ func gen(stream string, seed uint64, n int, path string) {
 		wide := stream != "rules4" && stream != "packets4" && i%3 != 0
 		c := genCfg(r, wide)
 		out.Line("case", strconv.Itoa(i), stream)
-		if stream == "env" {
-			genEnvCase(r, c, out)
+		if stream == "env" || stream == "cmd" {
+			genEnvCase(r, c, out, stream == "cmd")
 			continue
 		}
 		out.Line(c.tokens()...)
@@ -283,7 +283,7 @@ var addrPool = []string{"10.1.2.3", "2001:db8::3", "192.168.7.7", "fd00::7", "fe
 // genEnvCase: one invocation of the binary: DefaultConfig + real flags / environment variables +
 // FillConfigFromEnvironment on a host with the drawn interface addresses.
 // Environment-only fields use `~` for "variable unset"; the other fields `~` for "absent".
-func genEnvCase(r *wire.Rng, c rawCfg, out *wire.Out) {
+func genEnvCase(r *wire.Rng, c rawCfg, out *wire.Out, asCommand bool) {
 	e := envCase{vals: c, via: map[string]string{}}
 	if r.Chance(1, 3) {
 		e.vals.ProxyGID = "" // defaults to the (possibly defaulted) UID
@@ -370,8 +370,51 @@ func genEnvCase(r *wire.Rng, c rawCfg, out *wire.Out) {
 		}
 	}
 	e.vals.IPv6 = false // ignored: the family comes from getLocalIP
-	e.uid = expectedUID(e.envoyUser)
-	e.resolv = resolvServers()
+	// precedence: for some flag-delivered string values also set the flag's environment variable, to another value
+	e.decoy = map[string]string{}
+	for _, ce := range contract {
+		v, ok := e.value(ce.field)
+		if ok && ce.env != "" && ce.short != "" && (e.via[ce.field] == "" || e.via[ce.field] == "short" || e.via[ce.field] == "sp") && r.Chance(1, 8) {
+			e.decoy[ce.field] = v + "9"
+		}
+	}
+	// the host files: synthetic in a private mount namespace, else observed
+	if nsOK {
+		h := hostSpec{synthetic: true, resolvOK: !r.Chance(1, 8)}
+		if h.resolvOK {
+			h.resolv = pickSome(r, []string{"10.96.0.10", "fd00::a", "127.0.0.53", "::ffff:10.0.0.53", "2001:4860:4860::8888", "169.254.20.10", "not-an-ip"}, 3)
+		}
+		h.envoyUID = defaultProxyUID
+		name := e.envoyUser
+		if name == "" {
+			name = defaultEnvoyUser
+		}
+		if r.Chance(1, 2) { // the ENVOY_USER exists, with uid != gid
+			uid, gid := strconv.Itoa(1000+r.Intn(500)), strconv.Itoa(2000+r.Intn(500))
+			h.passwd = append(h.passwd, name+":"+uid+":"+gid)
+			h.envoyUID = uid
+		}
+		if r.Chance(1, 3) {
+			h.passwd = append(h.passwd, "someone-else:4242:4343")
+		}
+		e.host = h
+	} else {
+		e.host = observeHost(e.envoyUser)
+	}
+	if asCommand { // stream cmd: the real cobra command in a child process
+		e.via["dryrun"] = wire.Pick(r, []string{"", "", "short", "env"})
+		if r.Chance(1, 8) {
+			e.via["skip"] = "1"
+		}
+		t := e.tokens()
+		t[0] = "cmdcfg"
+		out.Line(t...)
+		res := runCommand(e)
+		for k := 0; k <= len(res.lines); k++ {
+			out.Line("r", "4", strconv.Itoa(k))
+		}
+		return
+	}
 	out.Line(e.tokens()...)
 	res, _ := runRealEnv(e)
 	for k := 0; k <= len(res.v4); k++ {
@@ -408,6 +451,19 @@ func execOps(stream, in, outPath string) {
 			} else {
 				out.Line(cur.status)
 			}
+		case "cmdcfg":
+			tt := append([]string{"envcfg"}, t[1:]...)
+			e, ok := envCaseFromTokens(tt)
+			cur, rs = compiled{}, nil
+			if !ok {
+				out.Line("bad-op")
+				break
+			}
+			res := runCommand(e)
+			if res.exit == 0 {
+				cur = compiled{status: "ok", v4: res.lines}
+			}
+			out.Line(res.statusLine()...)
 		case "envcfg":
 			e, ok := envCaseFromTokens(t)
 			if !ok {
